@@ -571,7 +571,7 @@ fn runtype_any_of_discriminated(
         props: discriminator_strings
             .iter()
             .map(|current_key| {
-                let cases = object_vs
+                let carriers = object_vs
                     .iter()
                     .filter(|vs| {
                         let value = vs
@@ -584,8 +584,28 @@ fn runtype_any_of_discriminated(
                             .filter_map(|it| it.extract_single_string_const())
                             .any(|it| it == *current_key)
                     })
+                    .collect::<Vec<_>>();
+                // several variants carry this literal: the union of them is printed below, and with a
+                // variant that carries other literals too it would be dispatched on the discriminator
+                // again and rebuild itself for ever. Under this key the discriminator is this key.
+                let several = carriers.len() > 1;
+                let cases = carriers
+                    .into_iter()
                     .map(|vs| {
-                        Runtype::object(vs.iter().map(|it| (it.0.clone(), it.1.clone())).collect())
+                        Runtype::object(
+                            vs.iter()
+                                .map(|it| {
+                                    if several && *it.0 == discriminator {
+                                        (
+                                            it.0.clone(),
+                                            Runtype::single_string_const(current_key).required(),
+                                        )
+                                    } else {
+                                        (it.0.clone(), it.1.clone())
+                                    }
+                                })
+                                .collect(),
+                        )
                     })
                     .collect::<Vec<_>>();
                 let schema = if cases.len() == 1 {
